@@ -77,6 +77,16 @@ func c10Worker(in []byte) interface{} {
 				note("format-error:"+name, ferr.Error())
 			}
 		}
+		// mro format --includes: the @include list is rewritten to what the file needs
+		{
+			var fp syntax.Parser
+			f, ferr := fp.FormatSrcBytes([]byte(inp.Files["main.mro"]), mainPath, true, []string{dir})
+			if ferr == nil {
+				note("format-fixincludes:main.mro", f)
+			} else {
+				note("format-fixincludes-error:main.mro", ferr.Error())
+			}
+		}
 		if err == nil && ast != nil && ast.Call != nil {
 			g, gerr := ast.MakeCallGraph("ID.ps.", ast.Call)
 			if gerr != nil {
@@ -288,6 +298,46 @@ func init() {
 			}
 			progs = append(progs, c10Input{Files: files, Reps: reps})
 			nontrivial = append(nontrivial, true)
+		}
+		// include fixing: a main file that uses callables from files in several
+		// directories (private "_x.mro" files, names containing the including
+		// file's name, plain names) without including any of them
+		for k := 0; k < c.Pick(12, 200); k++ {
+			dirs := []string{"", "alib/", "lib/", "zlib/", "lib/deep/"}
+			names := []string{"_prep", "count", "main_helper", "z", "_z", "a", "main2"}
+			files := map[string]string{}
+			var calls []string
+			used := map[string]bool{}
+			n := 2 + rng.Intn(5)
+			for j := 0; j < n; j++ {
+				fn := dirs[rng.Intn(len(dirs))] + names[rng.Intn(len(names))] + ".mro"
+				if used[fn] {
+					continue
+				}
+				used[fn] = true
+				st := fmt.Sprintf("ST%d", j)
+				files[fn] = "stage " + st + "(\n    in  int x,\n    out int y,\n    src comp \"/bin/true\",\n)\n"
+				calls = append(calls, "    call "+st+"(\n        x = self.x,\n    )\n")
+			}
+			main := "pipeline P(\n    in  int x,\n    out int y,\n)\n{\n" + strings.Join(calls, "\n") + "\n    return (\n        y = ST0.y,\n    )\n}\n"
+			if k%3 != 2 {
+				// the callables are reachable through one transitive include,
+				// which include fixing replaces by the direct ones (every third
+				// shape has no include at all: the callables cannot be found and
+				// several errors are reported)
+				var incs []string
+				for fn := range files {
+					incs = append(incs, "@include \""+fn+"\"\n")
+				}
+				sort.Strings(incs)
+				files["all.mro"] = strings.Join(incs, "") + "\nfiletype txt;\n"
+				main = "@include \"all.mro\"\n\n" + main
+			}
+			if !used["main.mro"] {
+				files["main.mro"] = main
+				progs = append(progs, c10Input{Files: files, Reps: reps})
+				nontrivial = append(nontrivial, true)
+			}
 		}
 		// fixed shapes: programs whose call graph resolution reports several errors
 		for _, text := range c10CallGraphErrorShapes {
